@@ -475,6 +475,26 @@ def lossless_flags(repo):
         flags["ll_set"] = "LlSetUnrecognised"; notes.append("Paragraph::set body: " + nb[:400] + " / ensure_trailing_newline: " + ens[:400])
     return flags, notes
 
+def signature_flag(repo):
+    """apt-sources Signature::from_str: does it keep the whole text of a key block ("keep": Display then
+    adds one more LF per round) or strip the empty first line Display writes ("strip")?  Only the value
+    pool of the generators depends on it (Signature is an external codec for the Coq model)."""
+    try:
+        src = strip_comments(open(os.path.join(repo, "apt-sources/src/signature.rs"), encoding="utf-8").read())
+    except OSError:
+        return "absent"
+    nb = norm(find_fn_body(src, "from_str") or "")
+    keep = r'^iftext\.contains\("\\n"\)\{Ok\(Signature::KeyBlock\(text\.to_string\(\)\)\)\}else\{Ok\(Signature::KeyPath\(text\.into\(\)\)\)\}$'
+    strip = (r"^ifletSome\((" + ID + r")\)=text\.strip_prefix\('\\n'\)\{Ok\(Signature::KeyBlock\(\1\.to_string\(\)\)\)\}else"
+             r'iftext\.contains\("\\n"\)\{Ok\(Signature::KeyBlock\(text\.to_string\(\)\)\)\}else\{Ok\(Signature::KeyPath\(text\.into\(\)\)\)\}$')
+    disp = norm(find_fn_body(src, "fmt") or "")
+    disp_rx = r'^matchself\{Signature::KeyBlock\(text\)=>write!\(f,"\\n\{\}",text\),Signature::KeyPath\(path\)=>f\.write_str\(path\.to_string_lossy\(\)\.as_ref\(\)\),?\}$'
+    if not re.match(disp_rx, disp):
+        return "unrecognised"
+    if re.match(keep, nb): return "keep"
+    if re.match(strip, nb): return "strip"
+    return "unrecognised"
+
 # ----------------------------------------------------------------------------- output: Coq
 def coq_str(s):
     return "[" + "; ".join(str(ord(c)) for c in s) + "]%N"
@@ -675,6 +695,7 @@ def main():
         selftest()
         structs = collect(repo)
         flags, notes = lossless_flags(repo)
+        jflags = dict(flags); jflags["sig_keyblock"] = signature_flag(repo)
     except (TranslateError, ValueError, AssertionError) as e:
         print("translate/structs.py: " + str(e))
         return 1
@@ -685,10 +706,10 @@ def main():
                     notes.append(f"{s['id']}.{f['ident']}: {n}")
     verif = os.path.dirname(os.path.dirname(os.path.abspath(gen.rstrip("/"))))
     ch = [write_if_changed(os.path.join(gen, "Structs_gen.v"), emit_coq(structs, flags, notes)),
-          write_if_changed(os.path.join(gen, "structs.json"), emit_json(structs, flags)),
+          write_if_changed(os.path.join(gen, "structs.json"), emit_json(structs, jflags)),
           write_if_changed(os.path.join(verif, "harness", "src", "s_derive_gen.rs"), emit_rust(structs))]
     print(f"structs.py: {len(structs)} deriving structs, {sum(len(s['fields']) for s in structs)} fields; "
-          f"flags {flags}; files rewritten: {sum(ch)}")
+          f"flags {jflags}; files rewritten: {sum(ch)}")
     for n in notes:
         print("  note: " + n)
     return 0
